@@ -7,6 +7,7 @@ import (
 	"context"
 	"encoding/json"
 	"fmt"
+	"math"
 	"net"
 	"net/http/httptest"
 	"net/netip"
@@ -160,6 +161,23 @@ type c07H struct {
 	desc    []string
 	// anonSeen: entries that were served from memory while anonymising
 	anonSeen map[int]bool
+	// ivl: the rotation interval as last configured (through the API or by the
+	// configuration a restart read)
+	ivl time.Duration
+	// forceReason / forceFiltered, when set (>= 0), fix the filtering result
+	// of the next recorded queries; forceAge backdates the next recorded
+	// query (a record left by an earlier run of the program).
+	forceReason   int
+	forceFiltered int
+	forceAge      time.Duration
+	// cells: (status, reason, filtered) cells asked while an entry of that
+	// reason / flag was visible
+	cells map[[3]int]bool
+}
+
+func c07NewH(t *testing.T, r *vfRand, dir string) *c07H {
+	return &c07H{t: t, ctx: context.Background(), r: r, dir: dir, byNS: map[int64]*c07Rec{}, cls: map[string]bool{},
+		anonSeen: map[int]bool{}, ivl: timeutil.Day, forceReason: -1, forceFiltered: -1, cells: map[[3]int]bool{}}
 }
 
 // trace appends one readable line per operation / request to the case
@@ -226,10 +244,11 @@ func (h *c07H) newLog(memSize uint, fileEnabled, enabled bool) {
 		ConfigModified: func() {},
 		FindClient:     h.findClient,
 		BaseDir:        h.dir,
-		RotationIvl:    timeutil.Day,
+		RotationIvl:    h.ivl,
 		MemSize:        memSize,
 		Enabled:        enabled,
 		FileEnabled:    fileEnabled,
+		AnonymizeClientIP: h.anon,
 	}
 	if h.anon {
 		h.conf.Anonymizer = aghnet.NewIPMut(AnonymizeIP)
@@ -265,6 +284,13 @@ func (h *c07H) add() {
 		res.IsFiltered = !r.Chance(1, 8)
 	default:
 		res.IsFiltered = r.Chance(1, 10)
+	}
+	if h.forceReason >= 0 {
+		reason = filtering.Reason(h.forceReason)
+		res.Reason = reason
+	}
+	if h.forceFiltered >= 0 {
+		res.IsFiltered = h.forceFiltered == 1
 	}
 	for i, n := 0, r.Intn(3); i < n; i++ {
 		res.Rules = append(res.Rules, &filtering.ResultRule{
@@ -344,6 +370,20 @@ func (h *c07H) add() {
 	}()
 	if ent == nil {
 		h.t.Fatal("entry not in the buffer after Add")
+	}
+	if h.forceAge > 0 {
+		// a record left by an earlier run: the flush this Add may have spawned
+		// waits for fileFlushLock, so the entry is still only in the buffer
+		old := time.Now().Add(-h.forceAge)
+		if old.UnixNano() <= h.lastNS {
+			h.t.Fatalf("backdated stamp %d not after %d", old.UnixNano(), h.lastNS)
+		}
+		func() {
+			l.bufferLock.Lock()
+			defer l.bufferLock.Unlock()
+			ent.Time = time.Unix(0, old.UnixNano())
+		}()
+		h.cls["backdated-record"] = true
 	}
 	rec := &c07Rec{id: len(h.recs) + 1, ns: ent.Time.UnixNano(), host: ent.QHost, ip: ent.IP.String(), cid: ent.ClientID,
 		reason: ent.Result.Reason, filtered: ent.Result.IsFiltered}
@@ -448,7 +488,19 @@ func (h *c07H) state() {
 	l.bufferLock.Lock()
 	n := l.buffer.Len()
 	l.bufferLock.Unlock()
-	h.steps = append(h.steps, vfApp("C07.HState", vfZ(int64(n)), vfZ(c07CountLines(l.logFile)), vfZ(c07CountLines(l.logFile+".1"))))
+	nc, nr := c07CountLines(l.logFile), c07CountLines(l.logFile+".1")
+	h.steps = append(h.steps, vfApp("C07.HState", vfZ(int64(n)), vfZ(nc), vfZ(nr)))
+	// the property's own book-keeping of where every recorded query lives
+	var w [3]int64
+	for _, x := range h.recs {
+		if x.where >= 0 {
+			w[x.where]++
+		}
+	}
+	if !h.stuck && !h.lockHeld && (w[0] != int64(n) || w[1] != max(nc, 0) || w[2] != max(nr, 0)) {
+		h.fail("where-recorded", "memory / querylog.json / querylog.json.1 hold %d / %d / %d records, the recorded and not removed ones are %d / %d / %d",
+			n, nc, nr, w[0], w[1], w[2])
+	}
 }
 
 func (h *c07H) op() {
@@ -465,52 +517,16 @@ func (h *c07H) op() {
 		h.trace("flush")
 	case k < 75:
 		// the periodic rotation check as a whole (checkAndRotate), with an
-		// interval that makes every existing file due (1 ns) or none (a day)
-		ivl := time.Nanosecond
-		if r.Bool() {
-			ivl = timeutil.Day
-		}
-		for time.Now().UnixNano() <= h.lastNS+1 {
-		}
-		var saved time.Duration
-		func() {
-			l.confMu.Lock()
-			defer l.confMu.Unlock()
-			saved, l.conf.RotationIvl = l.conf.RotationIvl, ivl
-		}()
-		l.checkAndRotate(h.ctx)
-		now := time.Now().UnixNano()
-		func() {
-			l.confMu.Lock()
-			defer l.confMu.Unlock()
-			l.conf.RotationIvl = saved
-		}()
-		// the property's reading: the file is rotated iff it exists and its
-		// first record is at least the interval old
-		first := int64(0)
-		for _, x := range h.recs {
-			if x.where == 1 && (first == 0 || x.ns < first) {
-				first = x.ns
-			}
-		}
-		switch {
-		case first == 0:
-			h.cls["check-rotate-missing-file"] = true
-		case first+int64(ivl) <= now:
-			h.cls["check-rotate-due"] = true
-			for _, x := range h.recs {
-				if x.where == 2 {
-					x.where = -1
-					h.cls["rotate-ages-out"] = true
-				} else if x.where == 1 {
-					x.where = 2
-				}
-			}
+		// interval that makes every existing file due (1 ns) or none (a day),
+		// or with the interval as configured
+		switch r.Intn(3) {
+		case 0:
+			h.checkRotate(time.Nanosecond)
+		case 1:
+			h.checkRotate(timeutil.Day)
 		default:
-			h.cls["check-rotate-not-due"] = true
+			h.checkRotate(0)
 		}
-		h.steps = append(h.steps, vfApp("C07.HCheckRot", vfZ(int64(ivl)), vfZ(now)))
-		h.trace("checkAndRotate with interval %v", ivl)
 	case k < 80:
 		if err := l.rotate(h.ctx); err != nil {
 			h.t.Fatal(err)
@@ -551,56 +567,229 @@ func (h *c07H) op() {
 		if c07ForceTable >= 0 {
 			h.table = c07ForceTable
 		}
-		wasAnon := h.anon
+		anon := h.anon
 		if r.Chance(1, 2) {
-			h.anon = !h.anon
+			anon = !anon
 		}
-		body, _ := json.Marshal(map[string]any{"enabled": en, "anonymize_client_ip": h.anon,
-			"interval": float64(timeutil.Day.Milliseconds()), "ignored": c07IgnoreLists[h.ignore]})
-		w := httptest.NewRecorder()
-		l.handlePutQueryLogConfig(w, httptest.NewRequest("PUT", "/control/querylog/config/update", bytes.NewReader(body)))
-		if w.Code != 200 {
-			h.t.Fatalf("config update: %d %s", w.Code, w.Body.String())
-		}
-		h.steps = append(h.steps, vfApp("C07.HOp", vfApp("OSetConfig", vfBool(en), h.coqIgnored(), h.coqClients())),
-			vfApp("C07.HAnon", vfBool(h.anon)))
-		h.cls["op-config"] = true
-		h.trace("PUT /control/querylog/config/update %s; client table %d", body, h.table)
-		if h.anon != wasAnon {
-			h.cls["op-config-anonymize-toggled"] = true
-			// a request right behind the change: served with the switch on, it
-			// must leave the stored entries alone; served right after the switch
-			// went off, it must show the recorded addresses again
-			if r.Chance(2, 3) {
-				h.state()
-				h.listing()
+		if r.Chance(1, 4) {
+			// the deprecated endpoint: any subset of enabled / interval /
+			// anonymize_client_ip; the ignore list stays
+			var pen, pan *bool
+			days := math.NaN()
+			if r.Bool() {
+				pen = &en
 			}
+			if r.Bool() {
+				pan = &anon
+			}
+			if r.Bool() {
+				days = vfPick(r, []float64{0.25, 1, 7, 30, 90})
+			}
+			h.postLegacyConfig(pen, pan, days)
+		} else {
+			h.putConfig(en, anon, vfPick(r, []time.Duration{time.Hour, 6 * time.Hour, timeutil.Day, timeutil.Day, 7 * timeutil.Day}), r.Chance(2, 3))
 		}
 	default:
-		fe := l.conf.FileEnabled
-		if err := l.Shutdown(h.ctx); err != nil && !strings.Contains(err.Error(), "nothing to write") {
-			h.t.Fatal(err)
-		}
-		for _, x := range h.recs {
-			if x.where == 0 {
-				if fe {
-					x.where = 1
-				} else {
-					x.where = -1
-					h.cls["restart-drops-memory"] = true
-				}
-			}
-		}
-		mem := uint(r.Range(1, 8))
+		// restart: Shutdown, then a new instance with the configuration the
+		// old one persists (WriteDiskConfig), possibly edited the way a user
+		// edits the configuration file
+		mem, editMem := uint(r.Range(1, 8)), r.Chance(1, 2)
 		if r.Chance(1, 10) {
 			mem = 0
 		}
-		h.newLog(mem, !r.Chance(1, 5), !r.Chance(1, 10))
-		h.steps = append(h.steps, vfApp("C07.HOp", vfApp("ORestart", h.coqConfig())))
-		h.cls["op-restart"] = true
-		h.trace("restart: mem_size=%d file_enabled=%v enabled=%v anonymize_client_ip=%v", h.l.conf.MemSize, h.l.conf.FileEnabled, h.l.conf.Enabled, h.anon)
+		flipFile, flipEn := r.Chance(1, 5), r.Chance(1, 8)
+		h.restart(func(c *Config) {
+			if editMem {
+				c.MemSize = mem
+			}
+			if flipFile {
+				c.FileEnabled = !c.FileEnabled
+			}
+			if flipEn {
+				c.Enabled = !c.Enabled
+			}
+		})
 	}
 	h.state()
+}
+
+// checkRotate runs the periodic rotation check as a whole.  override > 0: the
+// interval is set to it around the call (and restored); 0: the interval as
+// configured.
+func (h *c07H) checkRotate(override time.Duration) {
+	l := h.l
+	for time.Now().UnixNano() <= h.lastNS+1 {
+	}
+	ivl := h.ivl
+	if override > 0 {
+		ivl = override
+		var saved time.Duration
+		func() {
+			l.confMu.Lock()
+			defer l.confMu.Unlock()
+			saved, l.conf.RotationIvl = l.conf.RotationIvl, ivl
+		}()
+		defer func() {
+			l.confMu.Lock()
+			defer l.confMu.Unlock()
+			l.conf.RotationIvl = saved
+		}()
+	}
+	l.checkAndRotate(h.ctx)
+	now := time.Now().UnixNano()
+	// the property's reading: the file is rotated iff it exists and its
+	// first record is at least the interval old
+	first := int64(0)
+	for _, x := range h.recs {
+		if x.where == 1 && (first == 0 || x.ns < first) {
+			first = x.ns
+		}
+	}
+	switch {
+	case first == 0:
+		h.cls["check-rotate-missing-file"] = true
+	case first+int64(ivl) <= now:
+		h.cls["check-rotate-due"] = true
+		if override == 0 {
+			h.cls["check-rotate-configured-due"] = true
+		}
+		for _, x := range h.recs {
+			if x.where == 2 {
+				x.where = -1
+				h.cls["rotate-ages-out"] = true
+			} else if x.where == 1 {
+				x.where = 2
+			}
+		}
+	default:
+		h.cls["check-rotate-not-due"] = true
+		if override == 0 {
+			h.cls["check-rotate-configured-not-due"] = true
+		}
+	}
+	if override > 0 {
+		h.steps = append(h.steps, vfApp("C07.HCheckRot", vfZ(int64(ivl)), vfZ(now)))
+		h.trace("checkAndRotate with interval %v", ivl)
+	} else {
+		h.steps = append(h.steps, vfApp("C07.HCheckRotCfg", vfZ(now)))
+		h.trace("checkAndRotate (configured interval %v)", ivl)
+	}
+}
+
+// configApplied checks what WriteDiskConfig (the values home writes to the
+// configuration file) says after a configuration request.
+func (h *c07H) configApplied(en bool) {
+	var c Config
+	h.l.WriteDiskConfig(&c)
+	if c.Enabled != en || c.RotationIvl != h.ivl || c.AnonymizeClientIP != h.anon {
+		h.fail("config-applied", "after the configuration request the log reports enabled=%v interval=%v anonymize_client_ip=%v, requested %v / %v / %v",
+			c.Enabled, c.RotationIvl, c.AnonymizeClientIP, en, h.ivl, h.anon)
+	}
+}
+
+// putConfig: PUT /control/querylog/config/update.
+func (h *c07H) putConfig(en, anon bool, ivl time.Duration, listing bool) {
+	wasAnon := h.anon
+	h.anon, h.ivl = anon, ivl
+	body, _ := json.Marshal(map[string]any{"enabled": en, "anonymize_client_ip": h.anon,
+		"interval": float64(ivl.Milliseconds()), "ignored": c07IgnoreLists[h.ignore]})
+	w := httptest.NewRecorder()
+	h.l.handlePutQueryLogConfig(w, httptest.NewRequest("PUT", "/control/querylog/config/update", bytes.NewReader(body)))
+	if w.Code != 200 {
+		h.t.Fatalf("config update: %d %s", w.Code, w.Body.String())
+	}
+	h.configApplied(en)
+	h.steps = append(h.steps, vfApp("C07.HOp", vfApp("OSetConfig", vfBool(en), h.coqIgnored(), h.coqClients())),
+		vfApp("C07.HAnon", vfBool(h.anon)), vfApp("C07.HIvl", vfZ(int64(ivl))))
+	h.cls["op-config"] = true
+	h.trace("PUT /control/querylog/config/update %s; client table %d", body, h.table)
+	if h.anon != wasAnon {
+		h.cls["op-config-anonymize-toggled"] = true
+		// a request right behind the change: served with the switch on, it
+		// must leave the stored entries alone; served right after the switch
+		// went off, it must show the recorded addresses again
+		if listing {
+			h.state()
+			h.listing()
+		}
+	}
+}
+
+// postLegacyConfig: POST /control/querylog_config (deprecated): only the
+// members present change.
+func (h *c07H) postLegacyConfig(en, anon *bool, days float64) {
+	m := map[string]any{}
+	newEn := h.l.conf.Enabled
+	if en != nil {
+		m["enabled"], newEn = *en, *en
+	}
+	wasAnon := h.anon
+	if anon != nil {
+		m["anonymize_client_ip"], h.anon = *anon, *anon
+	}
+	if !math.IsNaN(days) {
+		m["interval"] = days
+		h.ivl = time.Duration(float64(timeutil.Day) * days)
+		h.cls["op-config-legacy-interval"] = true
+	}
+	body, _ := json.Marshal(m)
+	w := httptest.NewRecorder()
+	h.l.handleQueryLogConfig(w, httptest.NewRequest("POST", "/control/querylog_config", bytes.NewReader(body)))
+	if w.Code != 200 {
+		h.t.Fatalf("legacy config update: %d %s", w.Code, w.Body.String())
+	}
+	h.configApplied(newEn)
+	h.steps = append(h.steps, vfApp("C07.HOp", vfApp("OSetConfig", vfBool(newEn), h.coqIgnored(), h.coqClients())),
+		vfApp("C07.HAnon", vfBool(h.anon)), vfApp("C07.HIvl", vfZ(int64(h.ivl))))
+	h.cls["op-config"] = true
+	h.cls["op-config-legacy"] = true
+	if h.anon != wasAnon {
+		h.cls["op-config-anonymize-toggled"] = true
+	}
+	h.trace("POST /control/querylog_config %s; client table %d", body, h.table)
+}
+
+// restart: Shutdown, then newQueryLog on the same directory with the
+// configuration the old instance persists (WriteDiskConfig), after [edit].
+func (h *c07H) restart(edit func(c *Config)) {
+	l := h.l
+	var pc Config
+	l.WriteDiskConfig(&pc)
+	fe := pc.FileEnabled
+	if pc.RotationIvl != h.ivl || pc.AnonymizeClientIP != h.anon {
+		h.fail("config-applied", "the configuration to persist has interval=%v anonymize_client_ip=%v, configured %v / %v",
+			pc.RotationIvl, pc.AnonymizeClientIP, h.ivl, h.anon)
+	}
+	if err := l.Shutdown(h.ctx); err != nil && !strings.Contains(err.Error(), "nothing to write") {
+		h.t.Fatal(err)
+	}
+	for _, x := range h.recs {
+		if x.where == 0 {
+			if fe {
+				x.where = 1
+				h.cls["restart-keeps-memory"] = true
+				if !pc.Enabled {
+					h.cls["restart-while-disabled-keeps-memory"] = true
+				}
+			} else {
+				x.where = -1
+				h.cls["restart-drops-memory"] = true
+			}
+		}
+	}
+	if edit != nil {
+		edit(&pc)
+	}
+	if pc.MemSize != l.conf.MemSize {
+		h.cls["restart-mem-size-changed"] = true
+	}
+	if pc.FileEnabled != fe {
+		h.cls["restart-file-enabled-changed"] = true
+	}
+	h.newLog(pc.MemSize, pc.FileEnabled, pc.Enabled)
+	h.steps = append(h.steps, vfApp("C07.HOp", vfApp("ORestart", h.coqConfig())), vfApp("C07.HIvl", vfZ(int64(h.ivl))))
+	h.cls["op-restart"] = true
+	h.trace("restart: mem_size=%d file_enabled=%v enabled=%v interval=%v anonymize_client_ip=%v", h.l.conf.MemSize, h.l.conf.FileEnabled, h.l.conf.Enabled, h.ivl, h.anon)
 }
 
 // c07Query is one request.
@@ -1064,7 +1253,7 @@ func (h *c07H) battery(full bool) {
 		return
 	}
 	// 4. filters
-	for _, st := range c07Statuses {
+	for si, st := range c07Statuses {
 		q := c07Query{status: st}
 		resp = h.search(q)
 		if w := h.expected(q); resp.code == 0 && !c07Eq(resp.ids, w) {
@@ -1072,6 +1261,18 @@ func (h *c07H) battery(full bool) {
 		} else if len(w) > 0 && len(w) < len(all) {
 			h.cls["status-selects-"+st] = true
 		}
+		// the cells of the status table this request decided
+		for _, id := range all {
+			x := h.recs[id-1]
+			f := 0
+			if x.filtered {
+				f = 1
+			}
+			h.cells[[3]int{si, int(x.reason), f}] = true
+		}
+	}
+	if len(h.cells) == len(c07Statuses)*12*2 {
+		h.cls["status-table-all-cells"] = true
 	}
 	terms := append([]string{}, c07Terms...)
 	vfShuffle(r, terms)
@@ -1152,7 +1353,7 @@ func c07AnonPrelude(t *testing.T, out *vfOut, r *vfRand, mem uint) {
 		t.Fatal(err)
 	}
 	defer os.RemoveAll(dir)
-	h := &c07H{t: t, ctx: context.Background(), r: r, dir: dir, byNS: map[int64]*c07Rec{}, cls: map[string]bool{}, anonSeen: map[int]bool{}}
+	h := c07NewH(t, r, dir)
 	h.newLog(mem, true, true)
 	c0 := h.coqConfig()
 	setAnon := func(on bool) {
@@ -1235,6 +1436,208 @@ func c07AnonPrelude(t *testing.T, out *vfOut, r *vfRand, mem uint) {
 	out.Emit(c)
 }
 
+// c07Finish emits the case of a constructed history.
+func (h *c07H) finish(out *vfOut, c0 string, desc map[string]any) {
+	desc["entries"], desc["searches"], desc["trace"] = len(h.recs), h.nsearch, h.desc
+	desc["status_cells"] = len(h.cells)
+	c := vfCase{
+		Coq: c07CHist(c0, h.steps),
+		Nontrivial: len(h.recs) > 0, MonitorOK: len(h.msgs) == 0, MonitorMsg: strings.Join(h.msgs, "; "), FindingKey: h.key,
+		Desc: desc,
+	}
+	for k := range h.cls {
+		c.Classes = append(c.Classes, k)
+	}
+	sort.Strings(c.Classes)
+	out.Emit(c)
+}
+
+func (h *c07H) flushOp() {
+	_ = h.l.flushLogBuffer(h.ctx)
+	h.moveMemToFile()
+	h.steps = append(h.steps, "(C07.HOp OFlush)")
+	h.cls["op-flush"] = true
+	h.trace("flush")
+}
+
+func (h *c07H) rotateOp() {
+	if err := h.l.rotate(h.ctx); err != nil {
+		h.t.Fatal(err)
+	}
+	hasCur := false
+	for _, x := range h.recs {
+		if x.where == 1 {
+			hasCur = true
+		}
+	}
+	if hasCur {
+		for _, x := range h.recs {
+			if x.where == 2 {
+				x.where = -1
+				h.cls["rotate-ages-out"] = true
+			} else if x.where == 1 {
+				x.where = 2
+			}
+		}
+	}
+	h.steps = append(h.steps, "(C07.HOp ORotate)")
+	h.cls["op-rotate"] = true
+	h.trace("rotate")
+}
+
+// c07StatusPrelude: one record for every filtering reason with and without
+// IsFiltered, spread over rotated file, current file and memory; then every
+// response_status value: each of the 10 x 12 x 2 cells of the status table is
+// decided by the real code, by the model and by the monitor.
+func c07StatusPrelude(t *testing.T, out *vfOut, r *vfRand, mem uint) {
+	dir, err := os.MkdirTemp(t.TempDir(), "st")
+	if err != nil {
+		t.Fatal(err)
+	}
+	defer os.RemoveAll(dir)
+	h := c07NewH(t, r, dir)
+	h.newLog(mem, true, true)
+	c0 := h.coqConfig()
+	h.forceHost = "example.org"
+	n := 0
+	for reason := 0; reason < 12; reason++ {
+		for f := 0; f < 2; f++ {
+			h.forceReason, h.forceFiltered = reason, f
+			h.add()
+			n++
+			if n == 9 {
+				h.rotateOp()
+			}
+		}
+	}
+	h.forceReason, h.forceFiltered, h.forceHost = -1, -1, ""
+	h.state()
+	h.battery(true)
+	if !h.cls["status-table-all-cells"] {
+		h.fail("", "status prelude: only %d of %d cells were asked", len(h.cells), len(c07Statuses)*24)
+	}
+	// every value again with a cursor chain of two per page
+	for _, st := range c07Statuses {
+		want := h.expected(c07Query{status: st})
+		var got []int
+		q := c07Query{status: st, limit: "2"}
+		for page := 0; page <= len(h.recs)+2; page++ {
+			resp := h.search(q)
+			if resp.code != 0 {
+				break
+			}
+			got = append(got, resp.ids...)
+			if resp.oldest == "" || len(resp.ids) == 0 {
+				break
+			}
+			q.older = resp.oldest
+		}
+		if !c07Eq(got, want) {
+			h.fail("cursor-paging", "response_status=%s in pages of 2 gives %v, want %v", st, got, want)
+		}
+	}
+	for _, x := range h.recs {
+		switch x.where {
+		case 0:
+			h.cls["entries-in-memory"] = true
+		case 1:
+			h.cls["entries-in-current-file"] = true
+		case 2:
+			h.cls["entries-in-rotated-file"] = true
+		}
+	}
+	h.finish(out, c0, map[string]any{"kind": "status-table", "mem_size": mem})
+}
+
+// c07TogglePrelude: one configuration field changes while records sit in
+// memory (beforeFlush) or in the file, with or without a restart between the
+// change and its reversal.  enabled and interval change through the API;
+// file_enabled and mem_size only exist in the configuration file, so their
+// change IS a restart with the edited value.  Two records left by an earlier
+// run (20 h and 2 h old) make the configured interval matter: a day keeps the
+// file, an hour rotates it.
+func c07TogglePrelude(t *testing.T, out *vfOut, r *vfRand, field string, afterFlush, restart bool) {
+	dir, err := os.MkdirTemp(t.TempDir(), "tg")
+	if err != nil {
+		t.Fatal(err)
+	}
+	defer os.RemoveAll(dir)
+	h := c07NewH(t, r, dir)
+	h.newLog(4, true, true)
+	c0 := h.coqConfig()
+	show := func() {
+		h.state()
+		h.listing()
+	}
+	h.forceAge = 20 * time.Hour
+	h.add()
+	h.forceAge = 2 * time.Hour
+	h.add()
+	h.forceAge = 0
+	if afterFlush {
+		h.flushOp()
+		h.cls["toggle-after-flush"] = true
+	} else {
+		h.cls["toggle-before-flush"] = true
+	}
+	show()
+	h.checkRotate(0) // a day: nothing is due
+	h.state()
+	set := func(on bool) {
+		switch field {
+		case "enabled":
+			h.putConfig(on, h.anon, h.ivl, false)
+		case "interval":
+			ivl := time.Hour
+			if on {
+				ivl = timeutil.Day
+			}
+			if afterFlush {
+				h.putConfig(true, h.anon, ivl, false)
+			} else {
+				d := float64(ivl) / float64(timeutil.Day)
+				if ivl == time.Hour {
+					// the deprecated endpoint only takes 6 h, 1, 7, 30, 90 days
+					d = 0.25
+				}
+				h.postLegacyConfig(nil, nil, d)
+			}
+		case "file_enabled":
+			h.restart(func(c *Config) { c.FileEnabled = on })
+		case "mem_size":
+			h.restart(func(c *Config) {
+				if on {
+					c.MemSize = 4
+				} else {
+					c.MemSize = 1
+				}
+			})
+		}
+		h.cls["toggle-"+field] = true
+	}
+	set(false)
+	show()
+	h.add()
+	h.add()
+	show()
+	h.checkRotate(0)
+	show()
+	if restart {
+		h.restart(nil)
+		h.cls["toggle-then-restart"] = true
+		show()
+	} else {
+		h.cls["toggle-no-restart"] = true
+	}
+	h.add()
+	set(true)
+	show()
+	h.add()
+	h.state()
+	h.battery(true)
+	h.finish(out, c0, map[string]any{"kind": "toggle", "field": field, "after_flush": afterFlush, "restart": restart})
+}
+
 // c07Stuck is set once a flush never finished: later histories are skipped.
 var c07Stuck bool
 
@@ -1258,8 +1661,8 @@ func c07History(t *testing.T, out *vfOut, r *vfRand, nops int, mem uint, fileEna
 		t.Fatal(err)
 	}
 	defer os.RemoveAll(dir)
-	h := &c07H{t: t, ctx: context.Background(), r: r, dir: dir, byNS: map[int64]*c07Rec{}, cls: map[string]bool{}, anonSeen: map[int]bool{},
-		table: r.Intn(len(c07ClientTables)), ignore: r.Intn(2)}
+	h := c07NewH(t, r, dir)
+	h.table, h.ignore = r.Intn(len(c07ClientTables)), r.Intn(2)
 	if c07ForceTable >= 0 {
 		h.table = c07ForceTable
 	}
@@ -1270,6 +1673,15 @@ func c07History(t *testing.T, out *vfOut, r *vfRand, nops int, mem uint, fileEna
 	}
 	if !fileEnabled {
 		h.cls["file-disabled"] = true
+	}
+	if nops > 0 && mem > 2 && r.Chance(1, 4) {
+		// records left by an earlier run
+		h.forceAge = time.Duration(r.Range(26, 60)) * time.Hour
+		h.add()
+		h.forceAge = time.Duration(r.Range(2, 20)) * time.Hour
+		h.add()
+		h.forceAge = 0
+		h.state()
 	}
 	nb := 1 + r.Intn(2)
 	for i := 0; i < nops && !h.stuck; i++ {
@@ -1313,7 +1725,7 @@ func c07ScanPrelude(t *testing.T, out *vfOut, r *vfRand) {
 		t.Fatal(err)
 	}
 	defer os.RemoveAll(dir)
-	h := &c07H{t: t, ctx: context.Background(), r: r, dir: dir, byNS: map[int64]*c07Rec{}, cls: map[string]bool{}, anonSeen: map[int]bool{}}
+	h := c07NewH(t, r, dir)
 	h.newLog(3, true, true)
 	c0 := h.coqConfig()
 	for i, host := range []string{"a.b", "example.org", "a.b", "a.b"} {
@@ -1362,7 +1774,7 @@ func c07ClearRacePrelude(t *testing.T, out *vfOut, r *vfRand, mem uint) {
 		t.Fatal(err)
 	}
 	defer os.RemoveAll(dir)
-	h := &c07H{t: t, ctx: context.Background(), r: r, dir: dir, byNS: map[int64]*c07Rec{}, cls: map[string]bool{}, anonSeen: map[int]bool{}}
+	h := c07NewH(t, r, dir)
 	h.newLog(mem, true, true)
 	c0 := h.coqConfig()
 	for i := uint(0); i+1 < mem; i++ {
@@ -1446,6 +1858,22 @@ func TestVerifC07(t *testing.T) {
 		c07History(t, out, vfNewRand(11), 60, 6, true, "prelude-ks-names")
 		c07History(t, out, vfNewRand(12), 40, 2, true, "prelude-ks-names")
 		c07ForceTable = -1
+	}
+	// every cell of the response_status table
+	for _, mem := range []uint{7, 30} {
+		if !c07Stuck {
+			c07StatusPrelude(t, out, vfNewRand(13+uint64(mem)), mem)
+		}
+	}
+	// configuration toggles x records flushed or not x restart or not
+	for _, field := range []string{"enabled", "file_enabled", "mem_size", "interval"} {
+		for _, afterFlush := range []bool{false, true} {
+			for _, restart := range []bool{false, true} {
+				if !c07Stuck {
+					c07TogglePrelude(t, out, vfNewRand(21), field, afterFlush, restart)
+				}
+			}
+		}
 	}
 	// ---- random histories
 	rnd := vfNewRand(out.Seed)
